@@ -47,6 +47,8 @@ Next ==
         \/ \E d \in {R(OkSlots)} : Step(Op("rescale", d, 0, 0, R(ZCl), <<>>), Keep)
         \/ \E d \in {R(S)} : Step(Op("id", d, 0, 0, "", <<>>), [st EXCEPT ![d] = "ok"])
         \/ \E d \in {R(S)} : Step(Op("srs", d, R({0, 1, 4, 5, 128, 255}), 0, "", <<>>), [st EXCEPT ![d] = "ok"])
+        \* a point built from the y side: canonical y at the boundary of the sign choice ((p-1)/2 limb by limb, p-1)
+        \/ \E d \in {R(S)} : Step(Op("ypt", d, R(0 .. 40), 0, R({"yhalf", "yhalf64", "yhalf128", "yhalf192", "ytop"}), <<>>), [st EXCEPT ![d] = "ok"])
         \/ \E d \in {R(S)} : Cardinality(OkSlots \ {d}) >= 3 /\ Step(Op("zero", d, 0, 0, "", <<>>), [st EXCEPT ![d] = "zero"])
         \/ \E d \in {R(S)} : Cardinality(OkSlots \ {d}) >= 3 /\ Step(Op("inf", d, 0, 0, "", <<>>), [st EXCEPT ![d] = "inf"])
         \* batch helpers over pointer lists with arbitrary aliasing (C19); bnorm may meet an un-normalisable element
